@@ -104,8 +104,12 @@ class Pipe(object):
                 parts.append(data[prev:c])
                 prev = c
         parts.append(data[prev:])
+        if len(parts) > 1:
+            self.net.fired('SEGMENT_SPLIT', len(parts) - 1)
         for i, p in enumerate(parts):
             lat = self.latency() if self.latency is not None else 0.0
+            if lat > 0:
+                self.net.fired('DELAY')
             t = max(self.last_t, s.now + lat)
             self.last_t = t
             if self.coalesce and i == 0 and self.segs and self.segs[-1][0] >= t - 1e-12:
@@ -156,7 +160,10 @@ class Pipe(object):
             seg = self.segs[0][1]
             k = min(n, len(seg))
             if self.short_read is not None and k > 1:
-                k = max(1, min(k, self.short_read(k)))
+                k2 = max(1, min(k, self.short_read(k)))
+                if k2 < k:
+                    self.net.fired('SHORT_READ')
+                k = k2
             out = bytes(seg[:k])
             del seg[:k]
             if not seg:
